@@ -13,9 +13,17 @@ def main():
     r = sh(f'git -C /repo worktree add --detach {SCR} HEAD')
     if r.returncode != 0:
         print(r.stderr); sys.exit(2)
-    # uncommitted contract files of the working tree are part of the machinery under test
+    # uncommitted contract files of the working tree are part of the machinery under test; they
+    # are snapshotted once so that editing /repo while the corpus runs does not disturb it
+    SNAP = SCR + '_contracts'
+    shutil.rmtree(SNAP, ignore_errors=True)
+    contract_files = []
     for f in glob.glob('/repo/zz_verif_*.go') + glob.glob('/repo/*/zz_verif_*.go'):
-        shutil.copy(f, f.replace('/repo/', SCR + '/'))
+        rel = f[len('/repo/'):]
+        os.makedirs(os.path.dirname(os.path.join(SNAP, rel)) or SNAP, exist_ok=True)
+        shutil.copy(f, os.path.join(SNAP, rel))
+        contract_files.append(rel)
+        shutil.copy(f, os.path.join(SCR, rel))
     ok = True
     results = []
     try:
@@ -24,8 +32,8 @@ def main():
             if want and not any(w in name for w in want):
                 continue
             sh(f'git -C {SCR} checkout -- . ')
-            for f in glob.glob('/repo/zz_verif_*.go') + glob.glob('/repo/*/zz_verif_*.go'):
-                shutil.copy(f, f.replace('/repo/', SCR + '/'))
+            for rel in contract_files:
+                shutil.copy(os.path.join(SNAP, rel), os.path.join(SCR, rel))
             r = sh(f'git -C {SCR} apply {ent["patch"]}')
             if r.returncode != 0:
                 print(f'{name}: PATCH DOES NOT APPLY: {r.stderr.strip()}'); ok = False; continue
@@ -38,10 +46,11 @@ def main():
                 viol = [l for l in r.stdout.split('\n') if l.startswith('VIOLATION')]
                 status = 'CAUGHT' if r.returncode == 1 and viol else 'MISSED'
                 if status == 'MISSED': ok = False
-                print(f'{name:45s} {prop}: {status}  ' + (viol[0][:150] if viol else r.stdout.strip().split('\n')[-1][:150]))
+                print(f'{name:45s} {prop}: {status}  ' + (viol[0][:150] if viol else r.stdout.strip().split('\n')[-1][:150]), flush=True)
                 results.append({'name': name, 'property': prop, 'status': status, 'violations': viol[:5]})
     finally:
         sh(f'git -C /repo worktree remove --force {SCR}'); shutil.rmtree(SCR, ignore_errors=True)
+        shutil.rmtree(SNAP, ignore_errors=True)
     json.dump(results, open('/verif/selftest/last_run.json', 'w'), indent=1)
     sys.exit(0 if ok else 1)
 main()
